@@ -86,7 +86,7 @@ def nanmedian (v : List Val) : Val := Interp.nanmedian v
 
 /-- `v[np.argsort(np.abs(v))[k]]` for `k = 1` is `Interp.secondLowestAbs`; general `k`: entry `k` of the values sorted
     stably by `|·|`, NaN last -/
-def sortedAbsGet (v : List Val) (k : Int) : Val := (Interp.isort Interp.absLe v).getD k.toNat .nan
+def sortedAbsGet (v : List Val) (k : Int) : Val := vget .nan (Interp.isort Interp.absLe v) k
 
 /-- `np.argmax(msk)` of a boolean vector -/
 def argmax (msk : List Bool) : Int := (Interp.argmaxBool msk : Int)
